@@ -122,6 +122,7 @@ type VC struct {
 	rangeAsserted map[string]bool
 	recvOrd   int
 	measureMemo map[string]string
+	frameFacts map[string][]string // pc fact -> the (new) heap array it constrains; dropped from queries that never mention it
 	pendingRecv int
 	covers    []*Obligation
 	typeFacts []string // type invariants of heap values mentioned in specs (always true)
